@@ -21,33 +21,38 @@ Proof. intros; split; [apply arrange_indep; assumption | apply arrange_perm]. Qe
    working tree (regenerated) *)
 Lemma read_finally : desc_read_finally = true.
 Proof. reflexivity. Qed.
+(* SynthDef._build resets the context whatever the graph function raises -- also for a BaseException
+   subclass that is not an Exception (regenerated; with `except Exception:` alone this does not check) *)
+Lemma build_resets_on_every_exception : build_finally = true.
+Proof. reflexivity. Qed.
 
-(* After any sequence of successful builds, builds that raise an Exception (graph function, input
-   checks), description reads (SynthDesc.new_from / read / SynthDef.add) that succeed or raise ANYTHING,
-   and unit generators created outside builds: the context is None, the lock is free, no build or read was
-   ever blocked and every outside unit generator belongs to no definition. *)
+(* After ANY sequence of builds -- succeeding, raising an Exception (graph function, input checks, the
+   optimiser), raising a BaseException that is not an Exception (a user-defined one, SystemExit,
+   KeyboardInterrupt) --, description reads (SynthDesc.new_from / read / SynthDef.add) that succeed or raise
+   anything, and unit generators created outside builds: the context is None, the lock is free, no build or
+   read was ever blocked and every outside unit generator belongs to no definition. *)
 Theorem ctx_released_on_every_path : forall evs : list event,
-  forallb no_base evs = true ->
-  cur (fst (run desc_read_finally ctx0 evs)) = None /\ locked (fst (run desc_read_finally ctx0 evs)) = false /\
+  cur (fst (run build_finally desc_read_finally ctx0 evs)) = None /\
+  locked (fst (run build_finally desc_read_finally ctx0 evs)) = false /\
   Forall (fun o => match o with OOutside _ b => b = None | OBlocked _ => False | _ => True end)
-         (snd (run desc_read_finally ctx0 evs)).
+         (snd (run build_finally desc_read_finally ctx0 evs)).
 Proof.
-  intros evs H. rewrite read_finally. destruct (run_released evs ctx0 eq_refl eq_refl H) as (A & B & C).
+  intros evs. rewrite read_finally, build_resets_on_every_exception.
+  destruct (run_released evs ctx0 eq_refl eq_refl) as (A & B & C).
   split; [exact A|]. split; [exact B|]. eapply Forall_impl; [|exact C]. intros o Ho. destruct o; simpl in *; auto.
 Qed.
 
-(* No residue: whatever happened before and after (failed builds and failed reads included), a definition
-   (or the dummy definition of a read) contains exactly the units its own graph function created -- i.e.
-   what the same build yields from the initial state. *)
+(* No residue: whatever happened before and after (failed builds with any kind of exception and failed reads
+   included), a definition (or the dummy definition of a read) contains exactly the units its own graph
+   function created -- i.e. what the same build yields from the initial state. *)
 Theorem failed_build_no_residue : forall (evs : list event) e id toks,
-  forallb no_base evs = true -> NoDup (build_ids evs) -> In e evs -> ev_toks e = Some (id, toks) ->
-  content id (defs (fst (run desc_read_finally ctx0 evs))) = toks
-  /\ content id (defs (fst (run desc_read_finally ctx0 [e]))) = toks.
+  NoDup (build_ids evs) -> In e evs -> ev_toks e = Some (id, toks) ->
+  content id (defs (fst (run build_finally desc_read_finally ctx0 evs))) = toks
+  /\ content id (defs (fst (run build_finally desc_read_finally ctx0 [e]))) = toks.
 Proof.
-  intros evs e id toks Hb Hnd Hin Het. rewrite read_finally. split.
-  - apply (run_no_residue evs ctx0 eq_refl eq_refl Hb Hnd e id toks Hin Het).
+  intros evs e id toks Hnd Hin Het. rewrite read_finally, build_resets_on_every_exception. split.
+  - apply (run_no_residue evs ctx0 eq_refl eq_refl Hnd e id toks Hin Het).
   - apply (run_no_residue [e] ctx0 eq_refl eq_refl) with (e := e).
-    + rewrite forallb_forall in Hb. cbn [forallb]. rewrite (Hb _ Hin). reflexivity.
     + rewrite (ev_toks_ids e id toks Het). constructor; [intros []|constructor].
     + left; reflexivity.
     + exact Het.
@@ -58,17 +63,17 @@ Example arrange_example : arrange_targets (fun u => Z.of_nat u) [5; 2; 9] = [9; 
                           /\ arrange_targets (fun u => Z.of_nat u) [9; 5; 2] = [9; 5; 2].
 Proof. vm_compute. split; reflexivity. Qed.
 Example ctx_example :
-  run true ctx0 [EBuild 1 [10; 11] RaisesException; EOutside 12; ERead 3 [15] RaisesBase; EOutside 16;
-                 EBuild 2 [13] Succeeds; EOutside 14]
+  run true true ctx0 [EBuild 1 [10; 11] RaisesException; EOutside 12; ERead 3 [15] RaisesBase; EOutside 16;
+                 EBuild 2 [13] RaisesBase; EOutside 14]
   = (mkCtx None false [(1, [10; 11]); (3, [15]); (2, [13])],
      [OBuilt 1 RaisesException; OOutside 12 None; OReadDesc 3 RaisesBase; OOutside 16 None;
-      OBuilt 2 Succeeds; OOutside 14 None]).
+      OBuilt 2 RaisesBase; OOutside 14 None]).
 Proof. vm_compute. reflexivity. Qed.
-(* The hypothesis `no_base` is needed by the code as it is: a BaseException that is not an
-   Exception (KeyboardInterrupt in an interactive session) is not caught by `except Exception`,
-   so the context stays set and later outside units are appended to the dead definition. *)
+(* `except Exception:` alone (the code before the fix, bfin = false) is refuted: a BaseException that is not
+   an Exception is not caught, the context stays set and later outside units are appended to the dead
+   definition. *)
 Example base_exception_leaves_residue :
-  run true ctx0 [EBuild 1 [10] RaisesBase; EOutside 12]
+  run false true ctx0 [EBuild 1 [10] RaisesBase; EOutside 12]
   = (mkCtx (Some 1) false [(1, [10; 12])], [OBuilt 1 RaisesBase; OOutside 12 (Some 1)]).
 Proof. vm_compute. reflexivity. Qed.
 
@@ -78,6 +83,6 @@ Print Assumptions failed_build_no_residue.
 
 (* a reader that resets the context only at the end of the try body (not in `finally:`) leaks it *)
 Example read_without_finally_leaves_residue :
-  run false ctx0 [ERead 1 [10] RaisesBase; EOutside 12]
+  run true false ctx0 [ERead 1 [10] RaisesBase; EOutside 12]
   = (mkCtx (Some 1) false [(1, [10; 12])], [OReadDesc 1 RaisesBase; OOutside 12 (Some 1)]).
 Proof. vm_compute. reflexivity. Qed.
